@@ -51,6 +51,7 @@ func specDefaultKnown(t parser.ValueType) bool {
 //@   ensures[C04] first-or-empty: (len(r.values) == 0 ==> result == "") && (len(r.values) > 0 ==> result == r.values[0])
 //
 //@ func (*transpiler).evaluateIndex
+//@   requires[C13] an-index-is-given: index != nil
 //@   ensures[C04] forwards-once: calls(evaluateExpression) == 1 && arg(evaluateExpression, 0, 1) == index && result0 == res(evaluateExpression, 0, 0) && err == res(evaluateExpression, 0, 1)
 //
 //@ func (*transpiler).evaluateBooleanLiteral
@@ -63,6 +64,7 @@ func specDefaultKnown(t parser.ValueType) bool {
 //@   ensures[C01,C08] through-converter-once: err == nil && calls(StringToString) == 1 && arg(StringToString, 0, 0) == literal.Value() && len(result0.values) == 1 && result0.values[0] == res(StringToString, 0, 0)
 //
 //@ func (*transpiler).evaluateOperation
+//@   requires[C13] an-operation-is-given: operation != nil
 //@   ensures[C04] left-then-right-once-each: err == nil ==> calls(evaluateExpression) == 2 && arg(evaluateExpression, 0, 1) == operation.Left() && arg(evaluateExpression, 0, 2) && arg(evaluateExpression, 1, 1) == operation.Right() && arg(evaluateExpression, 1, 2) && calls(callout) == 1 && seq(evaluateExpression, 1) < seq(callout, 0)
 //@   ensures[C01,C04] operands-in-position: err == nil ==> arg(callout, 0, 0) == res(evaluateExpression, 0, 0).firstValue() && arg(callout, 0, 1) == operation.Operator() && arg(callout, 0, 2) == res(evaluateExpression, 1, 0).firstValue()
 //@   ensures[C01,C06] typed-by-left-operand: err == nil ==> arg(callout, 0, 3) == operation.Left().ValueType() && arg(callout, 0, 4) == valueUsed
@@ -165,6 +167,7 @@ func specDefaultKnown(t parser.ValueType) bool {
 // when there is more than one -- copied into the temporary _mv<k>; what is handed on is a reference
 // to that copy.  A single value is handed on as it is.
 //@ func (*transpiler).evaluateAssignedValues
+//@   requires[C13] every-value-is-there: forall(k, 0, len(expressions), expressions[k] != nil)
 //@   loop @"range expressions" invariant[C02,C04] evaluated-and-copied-so-far: len(values) == len(expressions) && calls(evaluateExpression) == rangeindex + 1 && forall(k, 0, rangeindex + 1, arg(evaluateExpression, k, 1) == expressions[k] && arg(evaluateExpression, k, 2)) && (len(expressions) <= 1 ==> calls(VarDefinition) == 0 && calls(VarEvaluation) == 0 && forall(k, 0, rangeindex + 1, values[k] == res(evaluateExpression, k, 0).firstValue())) && (len(expressions) > 1 ==> calls(VarDefinition) == rangeindex + 1 && calls(VarEvaluation) == rangeindex + 1 && forall(k, 0, rangeindex + 1, arg(VarDefinition, k, 0) == "_mv" + itoa(k) && arg(VarDefinition, k, 1) == res(evaluateExpression, k, 0).firstValue() && !arg(VarDefinition, k, 2) && arg(VarEvaluation, k, 0) == "_mv" + itoa(k) && arg(VarEvaluation, k, 1) && !arg(VarEvaluation, k, 2) && values[k] == res(VarEvaluation, k, 0) && seq(evaluateExpression, k) < seq(VarDefinition, k) && seq(VarDefinition, k) < seq(VarEvaluation, k)))
 //@   ensures[C02,C13] one-value-per-expression: err == nil ==> len(result0) == len(expressions)
 //@   ensures[C02,C04] every-value-once-in-source-order: err == nil ==> calls(evaluateExpression) == len(expressions) && forall(k, 0, len(expressions), arg(evaluateExpression, k, 1) == expressions[k] && arg(evaluateExpression, k, 2))
@@ -190,6 +193,7 @@ func specDefaultKnown(t parser.ValueType) bool {
 //@   ensures[C02,C04,C18] call-once-then-position-k-to-variable-k: result == nil ==> calls(evaluateExpression) == 1 && arg(evaluateExpression, 0, 1) == asExprCall(assignment.Call()) && arg(evaluateExpression, 0, 2) && len(res(evaluateExpression, 0, 0).values) == len(assignment.Variables()) && calls(VarDefinition) == len(assignment.Variables()) && forall(k, 0, len(assignment.Variables()), arg(VarDefinition, k, 0) == assignment.Variables()[k].Name() && arg(VarDefinition, k, 1) == res(evaluateExpression, 0, 0).values[k] && arg(VarDefinition, k, 2) == assignment.Variables()[k].Global())
 //
 //@ func (*transpiler).evaluateBlock
+//@   requires[C13] a-block-is-given: block != nil
 //@   loop @"range body" invariant[C04,C16,C13,C19] statement-k-once: calls(evaluate) == rangeindex + 1 && calls(Nop) == 0 && forall(k, 0, rangeindex + 1, arg(evaluate, k, 1) == block.Body()[k])
 //@   ensures[C16] empty-body-gets-a-nop: result == nil && len(block.Body()) == 0 ==> calls(Nop) == 1 && calls(evaluate) == 0
 //@   ensures[C04,C16] every-statement-once-in-order: result == nil && len(block.Body()) > 0 ==> calls(Nop) == 0 && calls(evaluate) == len(block.Body()) && forall(k, 0, len(block.Body()), arg(evaluate, k, 1) == block.Body()[k])
@@ -221,6 +225,7 @@ func specDefaultKnown(t parser.ValueType) bool {
 // argument, so nothing else would notice a mix-up), and an expression used as a statement is
 // evaluated exactly once with its value unused.
 //@ func (*transpiler).evaluate
+//@   requires[C13] a-statement-is-given: statement != nil
 //@   ensures[C01,C04,C16] break-is-break-and-continue-is-continue: (statement.StatementType() == parser.STATEMENT_TYPE_BREAK ==> calls(evaluateBreak) == 1 && calls(evaluateContinue) == 0) && (statement.StatementType() == parser.STATEMENT_TYPE_CONTINUE ==> calls(evaluateContinue) == 1 && calls(evaluateBreak) == 0)
 //@   ensures[C04] an-expression-statement-is-evaluated-once-value-unused: calls(evaluateExpression) <= 1 && (calls(evaluateExpression) == 1 ==> !arg(evaluateExpression, 0, 2) && arg(evaluateExpression, 0, 1) == statement)
 //
@@ -249,3 +254,6 @@ func asExprCall(c parser.Call) parser.Expression                    { return c }
 func asBlockFunction(f parser.FunctionDefinition) parser.Block      { return f }
 func asBlockFor(f parser.For) parser.Block                          { return f }
 func asBlockBranch(b parser.IfBranch) parser.Block                  { return b }
+
+//@ func (*transpiler).evaluateExpression
+//@   requires[C13] an-expression-is-given: expression != nil
